@@ -175,9 +175,15 @@ fn run(args: &Args, rep: &mut Report) {
         }
         rep.add(&format!("{}/plain-build", s["name"].as_str().unwrap_or("?")), s["exhaustive"].as_bool().unwrap_or(false), s["bound"].as_str().unwrap_or(""), vec![acc]);
     }
+    if args.tier == vcore::rt::Tier::Thorough {
+        checks::fuzzrun::campaign(rep, args, "robust", 300000, checks::oracle::fuzz_robust);
+    }
 }
 
 fn replay(_sub: &str, case: &Value) -> Result<(), String> {
+    if _sub.starts_with("libfuzzer-") {
+        return checks::oracle::fuzz_robust(&vcore::drive::case_bytes(case));
+    }
     let payload = vcore::drive::case_bytes(case);
     one(&payload)?;
     // and in the plain build, when available
